@@ -97,11 +97,103 @@ def run_domain_cases(chk, n):
             got = 'ERR'
         lines.append(line); expect.append(got); meta.append(dict(op=op, attrs=names, shape=sizes, line=line))
     outs = common.run_model(lines)
-    for line, got, out, m in zip(lines, expect, outs, meta):
-        chk.case(line, len(m['attrs']) >= 2, dict(kind='domain', **m, code=got, model=out) if chk.rng.random() < 0.01 else None)
+    gouts = common.run_gen(lines)      # the definitions generated from domain.py by the translator, on the same cases
+    for line, got, out, gout, m in zip(lines, expect, outs, gouts, meta):
+        chk.case(line, len(m['attrs']) >= 2, dict(kind='domain', **m, code=got, model=out, generated=gout) if chk.rng.random() < 0.01 else None)
         if got != out:
             chk.violation(dict(kind='domain-op', op=m['op']), 'Domain.%s disagrees with the verified model' % m['op'],
                           dict(m, code=got, model=out), found_input=True)
+        if gout != got:
+            # the translation of the CURRENT source disagrees with the running code: the translator (trusted base) is wrong, not the code
+            chk.violation(dict(kind='translator-validation', op=m['op']), 'definition generated from domain.py disagrees with the code it was generated from (Domain.%s)' % m['op'],
+                          dict(m, code=got, generated=gout, broken='translator validation: translator/py2gallina_list.py <-> src/mbi/domain.py'), found_input=False)
+    run_generated_only_cases(chk, max(60, n // 4))
+    run_big_domain_cases(chk, 12)
+
+
+def run_big_domain_cases(chk, n):
+    """Direct check (no model run: the models count in unary): size / product laws on domains whose size exceeds 2**64."""
+    from mbi import Domain
+    import math
+    rng = chk.rng
+    for _ in range(n):
+        k = rng.choice([40, 64, 70, 90])
+        names = ['x%03d' % i for i in range(k)]
+        rng.shuffle(names)
+        sizes = [rng.choice([2, 2, 3, 4, 7]) for _ in names]
+        d = Domain(names, sizes)
+        sub = [a for a in names if rng.random() < 0.8]
+        chk.count('domain.big')
+        got = (d.size(), d.size(sub), d.project(sub).size() * d.marginalize(sub).size())
+        exp = (math.prod(sizes), math.prod(s for a, s in zip(names, sizes) if a in sub), math.prod(sizes))
+        chk.case(('big', tuple(sizes)), True)
+        if got != exp or any(type(x) is not int for x in got):
+            chk.violation(dict(kind='domain-op', op='size-big'), 'Domain.size is not the product of the attribute sizes (domain of %d attributes)' % k,
+                          dict(attrs=names, shape=sizes, sub=sub, code=[str(x) for x in got], expected=[str(x) for x in exp]), found_input=True)
+
+
+def run_generated_only_cases(chk, n):
+    """Operations and inputs the hand model does not cover but the generated definitions do: the string spelling of one
+    attribute, transpose, __contains__/__getitem__/__len__, the constructor's assertion, and REPEATED attribute names
+    (dict(zip()) keeps the last size, tuple.index finds the first position)."""
+    from mbi import Domain
+    rng = chk.rng
+    ids = {nm: i for i, nm in enumerate(sorted(NAMES))}
+    lines, expect, meta = [], [], []
+    for _ in range(n):
+        names, sizes = gen_domain(rng, 5)
+        names, sizes = list(names), list(sizes)
+        if rng.random() < 0.4 and len(names) >= 1:
+            k = rng.randrange(len(names)); names.insert(rng.randrange(len(names) + 1), names[k]); sizes.insert(rng.randrange(len(sizes) + 1), rng.choice([1, 2, 3, 4]))
+        op = rng.choice(['project_str', 'transpose', 'size_str', 'in', 'getitem', 'len', 'init', 'project', 'axes', 'sort_size', 'sort_name', 'marginalize', 'size'])
+        chk.count('domain.generated.' + op)
+        dt = dom_tok(names, sizes, ids)
+        a = rng.choice(NAMES)
+        sub = [x for x in dict.fromkeys(names) if rng.random() < 0.6]
+        rng.shuffle(sub)
+        try:
+            if op == 'init':
+                s2 = list(sizes) + ([1] if rng.random() < 0.5 else [])
+                line = 'dom_init %s %s' % (ltok([ids[x] for x in names]), ltok(s2))
+                try:
+                    got = fmt_dom(Domain(names, s2), ids)
+                except AssertionError:
+                    got = 'ERR'
+            else:
+                d = Domain(names, sizes)
+                if op == 'project_str':
+                    line = 'dom_project_str %s %d' % (dt, ids[a]); got = fmt_dom(d.project(a), ids)
+                elif op == 'transpose':
+                    line = 'dom_transpose %s %s' % (dt, ltok([ids[x] for x in sub])); got = fmt_dom(d.transpose(sub), ids)
+                elif op == 'project':
+                    line = 'dom_project %s %s' % (dt, ltok([ids[x] for x in sub])); got = fmt_dom(d.project(sub), ids)
+                elif op == 'marginalize':
+                    line = 'dom_marginalize %s %s' % (dt, ltok([ids[x] for x in sub])); got = fmt_dom(d.marginalize(sub), ids)
+                elif op == 'axes':
+                    line = 'dom_axes %s %s' % (dt, ltok([ids[x] for x in sub])); got = '[' + ' '.join(map(str, d.axes(sub))) + ']'
+                elif op == 'size_str':
+                    line = 'dom_size_str %s %d' % (dt, ids[a]); got = str(d.size(a))
+                elif op == 'size':
+                    line = 'dom_size %s' % dt; got = str(d.size())
+                elif op == 'in':
+                    line = 'dom_in %s %d' % (dt, ids[a]); got = 'true' if a in d else 'false'
+                elif op == 'getitem':
+                    line = 'dom_getitem %s %d' % (dt, ids[a]); got = str(d[a])
+                elif op == 'len':
+                    line = 'dom_len %s' % dt; got = str(len(d))
+                elif op == 'sort_size':
+                    line = 'dom_sort_size %s' % dt; got = fmt_dom(d.sort('size'), ids)
+                elif op == 'sort_name':
+                    line = 'dom_sort_name %s' % dt; got = fmt_dom(d.sort('name'), ids)
+        except (KeyError, ValueError):
+            got = 'ERR'
+        lines.append(line); expect.append(got); meta.append(dict(op=op, attrs=names, shape=sizes, line=line))
+    gouts = common.run_gen(lines)
+    for line, got, gout, m in zip(lines, expect, gouts, meta):
+        chk.case(line, len(m['attrs']) >= 2, dict(kind='domain-generated', **m, code=got, generated=gout) if chk.rng.random() < 0.02 else None)
+        if gout != got:
+            chk.violation(dict(kind='translator-validation', op=m['op']), 'definition generated from domain.py disagrees with the code it was generated from (Domain.%s)' % m['op'],
+                          dict(m, code=got, generated=gout, broken='translator validation: translator/py2gallina_list.py <-> src/mbi/domain.py'), found_input=False)
 
 
 def gen_dataset(rng, tier):
@@ -221,6 +313,10 @@ def fmt_dom_ids(m, ids):
 
 def main(chk):
     chk.prove()
+    tok, tmsg = getattr(chk, 'translators', {}).get('domain', (True, ''))
+    if not tok:
+        chk.violation(dict(kind='translator'), 'src/mbi/domain.py left the translated subset: the theorems about the generated definitions are not re-checked against the current source',
+                      dict(broken='Gen/Domain_gen.v (translator/py2gallina_list.py on src/mbi/domain.py); Props/C15.v C15_src_*', translator_message=tmsg), found_input=False)
     n = 400 if chk.tier == 'quick' else 6000
     run_domain_cases(chk, n)
     run_dataset_cases(chk, n)
